@@ -248,6 +248,10 @@ func (fc *FnCtx) nilCheck(st *State, p PtrV, pos token.Pos, br *bodyRun) {
 	if fc.knownNonNil[p.Ref] {
 		return
 	}
+	if fc.quiet > 0 {
+		// inside a helper executed in place nothing is checked, so nothing is learnt either
+		return
+	}
 	fc.knownNonNil[p.Ref] = true
 	fc.oblige(st, not(eq(p.Ref, "0")), br.prefix+fc.ordName("nil", ""), "nil", pos, "nil pointer dereference")
 }
